@@ -8,6 +8,8 @@ Decides (structural):
   R5 placeholders for empty projection / empty relation literal / empty IN list
   R6 relation instances are named after sorts are inferred, under a uniqueness loop
   R7 Dialect::handler is total over the Dialect enum
+  R8-R10 capability flags, WITH RECURSIVE accumulation, take_to_define re-arming
+  R11 no `L`-suffixed numbers
 Not decided: that emitted text parses and binds in each engine.
 """
 import json
@@ -403,6 +405,24 @@ def r10(ctx, rep):
               file=f["file"], line=bad[0][0] if bad and isinstance(bad[0][0], int) else target["l"], fn=f["path"])
 
 
+def r11(ctx, rep):
+    rep.rule("C07.R11", "no number is emitted with sqlparser's `L` (long) suffix: Value::Number(_, long) is always built with long = false", floor=4)
+    syn = ctx.syn
+    n_sites = 0
+    for f in syn.fns:
+        if f["crate"] != "prqlc" or "/src/sql/" not in f["file"] or "body" not in f:
+            continue
+        k = 0
+        for n in walk(f["body"]):
+            if n.get("k") == "call" and last_seg(show(n["f"])) == "Number" and "Value" in show(n["f"]) and len(n["a"]) == 2:
+                n_sites += 1
+                k += 1
+                rep.check(lit_val(n["a"][1]) is False, f"long-flag:{f['path']}:{k}",
+                          f"`{show(n, maxdepth=5)}`: the second field of Value::Number makes sqlparser print an `L` suffix (`5000000000L`), which no supported dialect parses; it must be the literal `false`",
+                          file=f["file"], line=n["l"], fn=f["path"])
+    rep.check(n_sites >= 4, "sites", f"expected >= 4 Value::Number construction sites under sql/, found {n_sites}")
+
+
 def run(ctx, rep):
-    for r in (r1, r2, r3, r4, r5, r6, r7, r8, r9, r10):
+    for r in (r1, r2, r3, r4, r5, r6, r7, r8, r9, r10, r11):
         rep.guard(r, ctx)
